@@ -18,6 +18,7 @@ import (
 	canineglobaltestutil "github.com/jackalLabs/canine-chain/v4/testutil"
 	jkltypes "github.com/jackalLabs/canine-chain/v4/types"
 	moduletestutil "github.com/jackalLabs/canine-chain/v4/types/module/testutil"
+	rnsmodule "github.com/jackalLabs/canine-chain/v4/x/rns"
 	"github.com/jackalLabs/canine-chain/v4/x/rns/keeper"
 	types "github.com/jackalLabs/canine-chain/v4/x/rns/types"
 	tmproto "github.com/tendermint/tendermint/proto/tendermint/types"
@@ -164,3 +165,22 @@ func TestVerifScenario_C09_bid_overwrite(t *testing.T) {
 }
 
 var _ = jkltypes.Bech32Prefix
+
+// C19: exporting and importing must preserve the primary-name table.
+func TestVerifScenario_C19_primary_names_not_in_genesis(t *testing.T) {
+	k, _, ctx := vSetup(t)
+	owner := vAddr(1)
+	k.SetNames(ctx, types.Names{Name: "alice", Tld: "jkl", Value: owner.String(), Expires: 9_000_000, Data: "{}"})
+	k.SetPrimaryName(ctx, owner.String(), "alice", "jkl")
+	exported := rnsmodule.ExportGenesis(ctx, *k)
+	k2, _, ctx2 := vSetup(t)
+	rnsmodule.InitGenesis(ctx2, *k2, *exported)
+	_, hadPrimary := k.GetPrimaryName(ctx, owner.String())
+	_, hasPrimary := k2.GetPrimaryName(ctx2, owner.String())
+	_, hasName := k2.GetNames(ctx2, "alice", "jkl")
+	if hadPrimary && (!hasPrimary || !hasName) {
+		fmt.Printf("SCENARIO-VIOLATION the account had a primary name before export; after import the name record exists=%v but the primary name exists=%v (PrimaryName/value/ is neither exported nor imported)\n", hasName, hasPrimary)
+		return
+	}
+	fmt.Printf("SCENARIO-OK primary name before=%v after=%v\n", hadPrimary, hasPrimary)
+}
